@@ -20,6 +20,24 @@ pub struct Case {
     /// requested merges (<= 64)
     #[serde(default)]
     pub trained: Option<(Vec<String>, usize)>,
+    /// the text is followed (even values) or preceded (odd values) by one more word: the first word
+    /// of `text` repeated this many times without a separator (0 = nothing added) - a single word
+    /// of tens of kilobytes
+    #[serde(default)]
+    pub long_word: usize,
+}
+
+pub fn with_long_word(text: &str, long_word: usize) -> String {
+    if long_word == 0 {
+        return text.to_string();
+    }
+    let unit = text.split_whitespace().next().unwrap_or("ab");
+    if long_word % 2 == 1 {
+        // the long word first: it has no whitespace prefix, its byte 0 is a letter
+        format!("{} {text}", unit.repeat(long_word))
+    } else {
+        format!("{text} {}", unit.repeat(long_word))
+    }
 }
 
 pub struct C03;
@@ -43,7 +61,7 @@ impl Prop for C03 {
         crate::fuzzdec::c03(bytes)
     }
     const RULE: &'static str = "random well-formed merge tables and tables produced by train_bpe on generated corpora (<= 32 / <= 40 merges over 1-4 letter alphabets incl. multi-byte letters, chains, whitespace-prefixed tokens, competing entries) x texts whose words are concatenations of table tokens and letters separated by whitespace runs x max_vocab_size truncation; the token ids are compared with a naive reference BPE (rescan all adjacent pairs, lowest merge id, leftmost, repeat) per whitespace-prefixed word. Non-trivial: in some word the reference performs >= 2 merges, one of them with an already merged operand (depth >= 2). Distinct = distinct serialised case.";
-    const ESSENTIAL: &'static [&'static str] = &["depth>=2", "two_merges_in_word", "tie_same_id", "truncated", "trained_table"];
+    const ESSENTIAL: &'static [&'static str] = &["depth>=2", "two_merges_in_word", "tie_same_id", "truncated", "trained_table", "word_longer_than_65536_bytes"];
 
     fn budget(tier: Tier) -> Budget {
         match tier {
@@ -84,6 +102,7 @@ impl Prop for C03 {
                     max_vocab: None,
                     graphemes,
                     trained: Some((lines.clone(), requested)),
+                    long_word: 0,
                 })
             });
         let random = prop_oneof![12 => table_strategy(32), 1 => table_strategy(128)]
@@ -93,16 +112,23 @@ impl Prop for C03 {
                     table_text(letters, table.clone(), 5),
                     max_vocab_strategy(n),
                     any::<bool>(),
+                    // one case in 400: a word of more than 2^16 bytes
+                    prop_oneof![400 => Just(0usize), 1 => 14000usize..=24000],
                 )
-                    .prop_map(move |(text, max_vocab, graphemes)| Case {
+                    .prop_map(move |(text, max_vocab, graphemes, long_word)| Case {
                         table: table.clone(),
                         text,
                         max_vocab,
                         graphemes,
                         trained: None,
+                        long_word,
                     })
             });
         prop_oneof![5 => random, 1 => trained].boxed()
+    }
+
+    fn self_test() -> Result<(), String> {
+        model::self_test_bpe()
     }
 
     fn assumptions() -> Vec<String> {
@@ -180,7 +206,8 @@ impl Prop for C03 {
         }
         out.label_if(kept < c.table.entries.len(), "truncated");
         let map = c.table.truncated(kept).map();
-        let got = match tok.tokenize(&c.text, true) {
+        let text = with_long_word(&c.text, c.long_word);
+        let got = match tok.tokenize(&text, true) {
             Ok(t) => t.token_ids,
             Err(e) => {
                 out.fail(format!("tokenize failed: {e}"));
@@ -188,7 +215,13 @@ impl Prop for C03 {
             }
         };
         let mut want: Vec<u32> = vec![];
-        for w in model::split_ws_words(&c.text) {
+        for w in model::split_ws_words(&text) {
+            if w.len() > 400 {
+                // long words: the linked-list reference (validated against the rescanning one at start-up)
+                out.label_if(w.len() > 65536, "word_longer_than_65536_bytes");
+                want.extend(model::fast_bpe_word(w.as_bytes(), &map));
+                continue;
+            }
             let (ids, tr) = model::naive_bpe_word(w.as_bytes(), &map);
             out.label_if(tr.depth2, "depth>=2");
             out.label_if(tr.merges >= 2, "two_merges_in_word");
@@ -197,6 +230,15 @@ impl Prop for C03 {
                 out.nontrivial = true;
             }
             want.extend(ids);
+        }
+        if c.long_word > 0 && got != want {
+            let k = got.iter().zip(&want).position(|(a, b)| a != b).unwrap_or(got.len().min(want.len()));
+            out.fail(format!(
+                "tokenize(text + one word of {} bytes) has {} ids, canonical merge order gives {}; first difference at token {k}: {:?} vs {:?} (table {:?}, kept {kept})",
+                text.len().saturating_sub(c.text.len() + 1), got.len(), want.len(), got.get(k), want.get(k),
+                c.table.entries.iter().map(|e| String::from_utf8_lossy(e).to_string()).collect::<Vec<_>>()
+            ));
+            return out;
         }
         ensure!(
             out,
